@@ -131,6 +131,9 @@ class Ctx:
             print(f"VIOLATION property={self.pid} replay={v['replay']} key={v['key']} :: {v['detail'][:400]}")
         if self.violations and not any(v["replay"] for v in self.violations):
             print(f"VIOLATION property={self.pid} replay=None key={self.violations[0]['key']}")
+        if os.environ.get("VERIF_DUMP_KEYS"):
+            with open(os.environ["VERIF_DUMP_KEYS"], "w") as fh:
+                json.dump({k: [n, next(v["detail"] for v in self.violations if v["key"] == k)] for k, n in seen.items()}, fh, indent=1)
         for k, n in seen.items():
             if n > 2:
                 print(f"  ... {n} violations with key={k}")
